@@ -208,7 +208,7 @@ func (ex *Exec) libSummary(fr *Frame, st *State, fn *ssa.Function, args []Val, x
 			}
 		}
 	case "reflect.DeepEqual":
-		return one(&BoolV{})
+		return one(ex.deepEqual(st, args[0], args[1]))
 	case "(*sync.RWMutex).Lock", "(*sync.RWMutex).Unlock", "(*sync.RWMutex).RLock", "(*sync.RWMutex).RUnlock", "(*sync.Mutex).Lock", "(*sync.Mutex).Unlock":
 		st.Events = append(st.Events, Event{Kind: "lock:" + fn.Name(), Pos: pos})
 		return one(nil)
@@ -478,3 +478,67 @@ func (ex *Exec) invokeSummary(st *State, m *types.Func, args []Val, resT types.T
 }
 
 var _ = fmt.Sprint
+
+// deepEqual: reflect.DeepEqual on byte-slice-like values with tracked content; unknown otherwise.
+func (ex *Exec) deepEqual(st *State, a, b Val) *BoolV {
+	unwrap := func(v Val) *SliceV {
+		if iv, ok := v.(*IfaceV); ok && !iv.Unk && !iv.Nil {
+			v = iv.V
+		}
+		s, _ := v.(*SliceV)
+		return s
+	}
+	x, y := unwrap(a), unwrap(b)
+	if x == nil || y == nil || x.Unk || y.Unk {
+		return &BoolV{}
+	}
+	if eq, k := st.Decide("==", x.Len, y.Len); k && !eq {
+		return &BoolV{Known: true, Val: false}
+	}
+	sx, ok1 := ex.sliceSegs(st, x)
+	sy, ok2 := ex.sliceSegs(st, y)
+	if !ok1 || !ok2 {
+		return &BoolV{}
+	}
+	ex1, f1 := flatElems(sx)
+	ey1, f2 := flatElems(sy)
+	if f1 && f2 && len(ex1) == len(ey1) {
+		all := true
+		for i := range ex1 {
+			xi, okx := ex1[i].(*IntV)
+			yi, oky := ey1[i].(*IntV)
+			if !okx || !oky {
+				return &BoolV{}
+			}
+			eq, k := st.Decide("==", xi, yi)
+			if k && !eq {
+				return &BoolV{Known: true, Val: false}
+			}
+			if !k {
+				all = false
+			}
+		}
+		if all && (x.Nil == y.Nil || (len(ex1) > 0)) {
+			return &BoolV{Known: true, Val: true}
+		}
+		return &BoolV{}
+	}
+	// compare known prefixes
+	px, py := []Val{}, []Val{}
+	if len(sx) > 0 && sx[0].Run == nil {
+		px = sx[0].Elems
+	}
+	if len(sy) > 0 && sy[0].Run == nil {
+		py = sy[0].Elems
+	}
+	for i := 0; i < len(px) && i < len(py); i++ {
+		xi, okx := px[i].(*IntV)
+		yi, oky := py[i].(*IntV)
+		if okx && oky {
+			if eq, k := st.Decide("==", xi, yi); k && !eq {
+				return &BoolV{Known: true, Val: false}
+			}
+		}
+	}
+	return &BoolV{}
+}
